@@ -41,6 +41,8 @@ func main() {
 	switch os.Args[1] {
 	case "c06":
 		err = h.RunC06(*cases, *trace, *stats, *seed, *thorough)
+	case "c18":
+		err = h.RunC18(*cases, *trace, *stats, *seed)
 	case "hist":
 		err = h.RunHist(*trace, *stats, h.HistDriverOpts{N: *n, Seed: *seed, Proj: *proj, Only: *only,
 			Opts: h.HistOpts{Blocks: *blocks, MaxOpsPerBlk: *maxops, Boundary: *boundary, GovOps: *gov, NoBadValues: *nobad, TimeJumps: *jumps,
